@@ -27,6 +27,24 @@ CLAIMS = {
    design='DESIGN.md section 4 C02; rules R-DONATE, R-YIELD1, R-FOLD, R-MASK M-c, R-SCOPE, R-API',
    technique='buffer-ownership dataflow + CFG must-pass-through (yield/finally) + structural pairing checks + getattr/signature API check',
    note='R-API imports the installed third-party packages (jax, numpy, haiku, optax) to inspect attributes/signatures; fedjax itself is never imported.'),
+ 'C03': dict(
+   text='Static analysis (level "other"), narrow: sibling agreement of BatchView and PaddedBatchView (same range/slice bounds and '
+        'the same full-batch predicate; padding only on its complement; drop_remainder drops only a non-full batch), the pairing '
+        'obligations of pad_examples (prefix mask bound = copy bound, zeros of the feature\'s dtype and trailing shape, size and '
+        'mask-key validation), operator checks on the bucket search when it has its documented shape, and purity of all '
+        'iterators/helpers (re-iteration identical, dataset untouched). The integer arithmetic itself - that range/slice covers '
+        'each row once and the bucket search returns the smallest admissible size for all sizes - is NOT decided.',
+   design='DESIGN.md section 4 C03; rules R-SIB.view, R-PAIR.pad, R-BUCKET, R-PURE',
+   technique='sibling comparison of loop/slice shapes + pairing checks + alias/mutation analysis'),
+ 'C04': dict(
+   text='Static analysis (level "other"), narrow: the generator is a fresh RandomState(self._seed) per iteration and no global RNG '
+        'is called anywhere in fedjax/core; the index buffer is arange(N) written only by rng.shuffle (so every window holds '
+        'distinct indices); roles recovered from the copy statement show consecutive non-overlapping windows, reshuffle exactly '
+        'on exhaustion together with the cursor reset, first pass shuffled; batches are gathers of exactly batch_size indices; '
+        'the step count has the documented floor/ceil/min structure. Permutation coverage over epochs and the step-count '
+        'arithmetic over all hyper-parameters are NOT decided.',
+   design='DESIGN.md section 4 C04; rules R-SEED, R-PERM, R-SIZE, R-PURE',
+   technique='who-may-call (global RNG) + role recovery from the window-copy statement + control-dependence checks'),
  'C05': dict(
    text='Static analysis (level "other"): decides the structural conditions that make evaluation a masked monoid fold: '
         'merge/reduce of every Stat combine field with the same field and return through the sanitising new() factory, '
@@ -100,6 +118,15 @@ CLAIMS = {
         'else. It does not decide value equality of two calls or pickle round trips.',
    design='DESIGN.md section 4 C10; rules R-PURE, R-DONATE, R-KEY K3, R-FROZEN, R-NONDET',
    technique='interprocedural alias/mutation analysis over reaching definitions + PRNG-key linearity typestate'),
+ 'C13': dict(
+   text='Static analysis (level "other"): the samplers write only self._round_num outside __init__ (incremented exactly once per '
+        'sample(), after its uses; set_round_num stores its argument), the numpy RandomState is rebuilt inside every sample() '
+        'from (seed, round) by a function that touches no global RNG, ids are drawn with choice(np.array(ids, dtype=object), '
+        'size=cohort, replace=False), datasets come from get_clients of exactly those ids and are paired with '
+        'split(PRNGKey(round), cohort)[i] by position; the streaming sampler skips start_round*cohort items and consumes cohort '
+        'items per round. Distinctness of the Lehmer seeds and statistical uniformity are not decided.',
+   design='DESIGN.md section 4 C13; rules R-PURE, R-SEED, R-CHOICE, R-STREAM, R-KEY',
+   technique='field-write (who-may-write) analysis + CFG ordering of the round counter + argument-shape checks'),
  'C14': dict(
    text='Static analysis (level "other"): per metric class, contradiction rules over the code shape: slice bounds taken from '
         'a user-supplied int field are clamped (k < 1), membership in a tuple of ids is a disjunction not an AND-fold, numerator '
